@@ -6,8 +6,8 @@ Spec (spec/frontends):
                 UsageErrs, FileToFile, Items, Collide, ThingsToDirectory); the CP_ clauses state the rules of
                 docs/frontends/CLI.rst, `tahoe cp --help` (scripts/cli.py) and the comments of scripts/tahoe_cp.py over
                 (world, arguments, answer) without those operators.
-  GenCliCp.tla  three worlds x lists of 1..3 sources x targets x -r x --caps-only, every row with Cp's answer; the rows are
-                the state space on which TLC checks the CP_ clauses.
+  GenCliCp.tla  worlds (three fixed ones + the 209 pairs of trees with at most two entries) x lists of 1..3 sources x targets x
+                -r x --caps-only, every row with Cp's answer; the rows are the state space on which TLC checks the CP_ clauses.
 Conformance: harness/clicp_driver.py builds a row's world for real (temporary directory; directories, immutable and
 mutable files on a grid behind the real web API, harness/webgrid.py), runs the real allmydata.scripts.tahoe_cp.Copier
 with do_http routed into that web API, and reads both trees back.  Python compares with the Spec's row.
@@ -37,7 +37,7 @@ def stratum(c):
     if c["expect"] == "error":      # rows that must fail: by error classes and sides
         return ("", len(c["srcs"]) > 1, "error", ",".join(sorted(c["errs"])), "", c["tgt"]["side"],
                 "".join(sorted({a["side"][0] for a in c["srcs"]})), False, False)
-    return (c["world"], len(c["srcs"]), c["expect"], "", c["why"], c["tgt"]["side"],
+    return (c["world"][:4], len(c["srcs"]), c["expect"], "", c["why"], c["tgt"]["side"],
             "".join(sorted({a["side"][0] for a in c["srcs"]})), c["r"], c["caps"])
 
 
@@ -64,7 +64,8 @@ def diff_class(exp, got):
 def run(ctx):
     q = ctx.quick
     rng = random.Random("X-cli_cp-%d" % ctx.seed)
-    consts = {"Seed": ctx.seed, "Mod1": 4 if q else 1, "Mod2": 10 if q else 1, "Mod3": 10 if q else 1, "WorldNames": '{"big", "fresh", "flat"}'}
+    consts = {"Seed": ctx.seed, "Mod1": 4 if q else 1, "Mod2": 10 if q else 1, "Mod3": 10 if q else 1, "WorldNames": '{"big", "fresh", "flat"}',
+              "TinyMod": 400 if q else 40}
     ctx.constants["GEN_CliCp"] = consts
     cfg = "SPECIFICATION Spec\nCONSTANTS\n" + "".join("  %s = %s\n" % kv for kv in consts.items()) + "".join("INVARIANT %s\n" % i for i in INVS)
     cache = os.environ.get("VERIF_CLICP_ROWS")      # mutant sweeps only: the Spec is unchanged, reuse its table
@@ -74,7 +75,8 @@ def run(ctx):
         r = None
         ctx.notes.append("GEN skipped (VERIF_CLICP_ROWS)")
     else:
-        rows, r = ctx.gen("frontends/GenCliCp", cfg, timeout=3000, coverage=False, env={"_JAVA_OPTIONS": "-XX:TieredStopAtLevel=1"})
+        rows, r = ctx.gen("frontends/GenCliCp", cfg, timeout=3000, coverage=False,
+                           env={"_JAVA_OPTIONS": "-XX:TieredStopAtLevel=1"} if q else None)       # quick: a short run, C1 only starts faster
         if cache:
             with open(cache, "w") as f:
                 json.dump(rows, f)
@@ -100,7 +102,10 @@ def run(ctx):
         rest = sorted(set(i for i, c in enumerate(cases) if c["expect"] == "ok") - set(sel))
         sel += rng.sample(rest, min(len(rest), max(0, 420 - len(sel))))
     else:
-        sel = list(range(len(cases)))
+        sel = [i for i, c in enumerate(cases) if c["expect"] != "error"]
+        for key in sorted(strata, key=str):
+            if key[2] == "error":
+                sel += rng.sample(strata[key], min(len(strata[key]), 25))
     rng.shuffle(sel)
     inp = {"worlds": worlds, "cases": [{"id": i, "world": cases[i]["world"], "srcs": cases[i]["srcs"], "tgt": cases[i]["tgt"],
                                         "r": cases[i]["r"], "caps": cases[i]["caps"]} for i in sel]}
@@ -168,15 +173,17 @@ def run(ctx):
     byexp = collections.Counter(c["expect"] for c in cases)
     if not any(k.startswith("ok:ok") for k in tally) or not any(k.startswith("error:E_") for k in tally):
         raise RuntimeError("vacuous run: %s" % dict(tally))
-    ctx.exhaustive = not q
-    ctx.rule = ("GEN: GenCliCp.tla's three worlds (big: both sides f, d/{x,m,s/u1,e/}, g/{x,d/{x,z}}, t/{x,m,d/x,f/,g}, three mutable "
-                "files on the grid; fresh: empty grid directory; flat: files only) x every (source, target, flags) for one source, and "
+    ctx.exhaustive = False
+    ctx.rule = ("GEN: GenCliCp.tla's worlds (big: both sides f, d/{x,m,s/u1,e/}, g/{x,d/{x,z}}, t/{x,m,d/x,f/,g}, three mutable "
+                "files on the grid; fresh: empty grid directory; flat: files only; tiny<i>: the 209 pairs of trees with at most two entries, one row in "
+                "400 / thorough 40) x every (source, target, flags) for one source, and "
                 "for every (first source, target, flags) one list of two and one of three sources chosen by index arithmetic rotated by "
                 "the seed; source = local or grid x named path / bare capability / bare alias x trailing slash x existing file / "
                 "directory / missing, target = root, existing file / mutable file / directory, missing name x trailing slash x both "
-                "sides, flags = -r x --caps-only (quick: one row in 4 / 10 / 10).  Replayed: every row (thorough); quick: a seeded sample "
-                "with rows of every stratum (world, number of sources, expectation, error classes, sides, flags), 3 per stratum of "
-                "rows that must succeed, 1 otherwise, filled up to 520 with rows that must succeed.  non-trivial = a row that must "
+                "sides, flags = -r x --caps-only (quick: one row in 4 / 10 / 10).  Replayed, thorough: every row that must succeed or is not "
+                "judged, 25 rows per stratum (error classes, sides, one / several sources) of the rows that must fail; quick: a seeded sample "
+                "with rows of every stratum (world, number of sources, expectation, reason, sides, flags), 2 per stratum of "
+                "rows that must succeed, 1 otherwise, 420 in all.  non-trivial = a row that must "
                 "succeed and has several sources, or makes a directory, or writes a mutable file in place.")
     ctx.assumptions += ["TLC and the CommunityModules",
                         "the driver's fixed tables (names, content identifier -> bytes, spelling of an argument per form, stderr text -> "
